@@ -8,7 +8,9 @@ use crate::{
 };
 
 pub(crate) fn empty_object(attr: &StructAttr, ts_name: Expr) -> Result<DerivedTS> {
-    check_attributes(attr)?;
+    // A braced struct (or struct variant) without fields may carry `rename_all` - possibly
+    // inherited from the enum's `rename_all_fields`: there is nothing to rename, which is not an
+    // error. (A `tag` never gets here.)
     let crate_rename = attr.crate_rename();
 
     Ok(DerivedTS {
